@@ -24,7 +24,8 @@ def generate(lalrpop_bin, g, mode, ascent=False, workdir=None, extra_args=(), pr
     st = os.path.join(d, "status")
     if os.path.exists(st):
         s = open(st).read().split("\n", 1)
-        return s[0], rs, s[1] if len(s) > 1 else ""
+        if s[0] not in ("error", "timeout"):      # those two are never trusted from the cache
+            return s[0], rs, s[1] if len(s) > 1 else ""
     os.makedirs(d, exist_ok=True)
     with open(os.path.join(d, "g.lalrpop"), "w") as w:
         w.write(text)
@@ -39,7 +40,7 @@ def generate(lalrpop_bin, g, mode, ascent=False, workdir=None, extra_args=(), pr
             status = "ok"
         elif "panicked" in out or p.returncode not in (0, 1):
             status = "panic"
-        elif "onflict" in out or "mbiguous" in out or "ambiguity" in out:
+        elif "onflict" in out or "mbiguous" in out or "ambiguity" in out or "Multiple productions for the same reduction" in out:
             status = "conflict"
         else:
             status = "error"
